@@ -437,9 +437,15 @@ def replay_history(model, obligation):
     """turn a refuted / undischarged invariant obligation into a concrete failing history on
     the real workq/QPlugin with real greenlets"""
     from contracts import qhistory
-    n, appl, fail, samples = qhistory.search(3, checks=("c16",), budget=60000)
+    # (the segments are also run by C17 under the extended invariant: its oracles then take part, minus its known finding)
+    checks = ("c16", "c17") if qm.EXTENDED else ("c16",)
+    skip = None
+    if qm.EXTENDED:
+        from contracts import c17
+        skip = lambda f: f["check"] == "c17" and c17.classify17(f) == "finished-between-handoff-and-resume"  # noqa: E731
+    n, appl, fail, samples = qhistory.search(3, checks=checks, budget=60000, skip=skip)
     if fail is None:
-        n2, appl2, fail, _ = qhistory.search(0, checks=("c16",), random_len=8, random_n=3000)
+        n2, appl2, fail, _ = qhistory.search(0, checks=checks, random_len=8, random_n=3000, skip=skip)
         n += n2
     if fail:
         return True, fail, classify(fail)
